@@ -248,6 +248,8 @@ Do(s) ==
       [] s.op = "addCleanup" -> DoAddCleanup(s.a)
       [] s.op = "addDetail"  -> DoAddDetail(Name(s.a, s.b))
       [] s.op = "expect"     -> DoExpect(s.a)
+      \* an expectThat that MATCHES: no detail, and force_failure stays as it is (it is never cleared)
+      [] s.op = "expectok"   -> UNCHANGED <<stack, registered, details, added, force, attrs, raised, tbNext, hcalls>>
       [] s.op = "patch"      -> DoPatch(s.a)
       [] s.op = "useFixture" -> DoUseFixtureOk(s.a)
       [] OTHER -> FALSE
@@ -257,6 +259,7 @@ FreeSteps ==
     \cup {St("addCleanup", c, 0) : c \in CleanupIds}
     \cup {St("addDetail", nm.b, nm.n) : nm \in DetailNames}
     \cup {St("expect", m, 0) : m \in Mismatches}
+    \cup {St("expectok", None, 0)}
     \cup {St("patch", a, 0) : a \in Attrs}
     \cup {St("useFixture", f, 0) : f \in {x \in Fixtures : ~FixtureSetUpFails(x)}}
 
